@@ -392,6 +392,19 @@ def factory_memo_rule(repo: Repo, rep: Report, rid: str) -> None:
     rep.floor(rid, "type factories", n, 6)
 
 
+def identifier_rule(repo: Repo, rep: Report, rid: str) -> None:
+    rep.rule(rid, "multi-word type names are looked up under their canonical spelling: TokenParser._identifier joins the identifier tokens with exactly "
+                  "one space (whatever blanks, newlines or comments separated them in the source)")
+    fi = repo.func("parser.py", "TokenParser._identifier")
+    from ..util import resolve_local
+
+    rets = [r for r in walk_body(fi.node.body) if isinstance(r, ast.Return) and r.value is not None]
+    ok = bool(rets) and all(isinstance(resolve_local(fi.node, r.value), ast.Call) and norm(resolve_local(fi.node, r.value).func) == "' '.join" for r in rets)
+    rep.check(ok, rid, f"{fi.key}:canonical", "returns ' '.join(<token values>)",
+              f"TokenParser._identifier returns '{short(rets[0].value, 60) if rets else None}' instead of the words joined by one space: 'unsigned  int' (two blanks, a tab, "
+              "a newline or a comment between the words) is then an unknown type", fi.loc())
+
+
 def run(repo: Repo, rep: Report, tier: str) -> None:
     keyword_rule(repo, rep, "C13.R1")
     gap_rule(repo, rep, "C13.R2")
@@ -408,5 +421,7 @@ def run(repo: Repo, rep: Report, tier: str) -> None:
     from .memo import memo_rule
 
     memo_rule(repo, rep, "C13.R11")
+    identifier_rule(repo, rep, "C13.R12")
+
 
 
